@@ -91,7 +91,7 @@ def gen_call(lib, k, call):
                 post.append('%s("%s", %s, %d);' % (ir.arr_fns(T)[1], n, vn, len(vals)))
             post.append("free(%s);" % vn)
         elif kd in ("arr_out", "arr_out_fixed"):
-            cnt = args[p["dim"]] if kd == "arr_out" else p["K"]
+            cnt = ir.arr_out_count(p, args) if kd == "arr_out" else p["K"]
             L.append("    %s *%s = (%s *) malloc(%d * sizeof(%s) + (%d == 0));" % (ir.TYPES[T]["c"], vn, ir.TYPES[T]["c"], cnt, ir.TYPES[T]["c"], cnt))
             actual.append(vn)
             post.append('%s("%s", %s, %d);' % (ir.arr_fns(T)[1], n, vn, cnt))
